@@ -7,12 +7,19 @@
 //
 //	B;<edits>;<triples>;<obs>      builder history: edits applied to a fresh NewCANIDBuilder,
 //	                               then Calculate / CalculatePartials on every triple
-//	W;<mid>:<nid>;<npool>;<wops>;<obs>   message / node / bus / builder-pool history with
-//	                               Message.GetCANID observed after every step
+//	W;<mid>:<nid>;<npool>;<wops>;<obs>;L=<v>   message / node / bus / builder-pool history with
+//	                               Message.GetCANID observed after every step; then the network
+//	                               is saved (wire encoding) and loaded again and <v> is GetCANID
+//	                               of the message in the loaded network (`-` when the message is
+//	                               not attached to a bus and hence not saved, `skip` when the
+//	                               final state is not expressible in a save file,
+//	                               `default-builder-edits-not-saved` when the recorded saver
+//	                               finding of that name hit this message)
 package main
 
 import (
 	"bufio"
+	"bytes"
 	"errors"
 	"fmt"
 	"math"
@@ -388,7 +395,7 @@ func (s *state) runB(family string, edits []edit, triples []triple) {
 
 // ---------------------------------------------------------------- W cases
 type wop struct {
-	c string // P S D N At De DeA Ba Br BrA Ri Na Nr Ba2 Br2 Sb Ed
+	c string // P S D N At De DeA Ba Br BrA Ri Na Nr Ba2 Br2 Sb SbB Ed
 	v uint32
 	i int
 	e edit
@@ -398,8 +405,8 @@ func (o wop) String() string {
 	switch o.c {
 	case "P", "S", "D", "N":
 		return fmt.Sprintf("%s:%d", o.c, o.v)
-	case "Sb":
-		return fmt.Sprintf("Sb:%d", o.i)
+	case "Sb", "SbB":
+		return fmt.Sprintf("%s:%d", o.c, o.i)
 	case "Ed":
 		return fmt.Sprintf("Ed:%d:%s", o.i, strings.ReplaceAll(o.e.String(), ":", ","))
 	}
@@ -438,6 +445,23 @@ func (s *state) runW(mid, nid uint32, npool int, ops []wop) {
 		panic("harness: " + err.Error())
 	}
 	sibAttached, onBus2 := true, false
+	// a second bus of the same network that can share a builder with the first one
+	busB := acmelib.NewBus("busB")
+	node3 := acmelib.NewNode("node3", acmelib.NodeID(0x2B), 1)
+	msg4 := acmelib.NewMessage("msg4", acmelib.MessageID(0x00000077), 8)
+	msg4.SetPriority(acmelib.MessagePriority(mid % 4))
+	if err := node3.Interfaces()[0].AddSentMessage(msg4); err != nil {
+		panic("harness: " + err.Error())
+	}
+	if err := busB.AddNodeInterface(node3.Interfaces()[0]); err != nil {
+		panic("harness: " + err.Error())
+	}
+	if err := net.AddBus(busB); err != nil {
+		panic("harness: " + err.Error())
+	}
+	inNet, riUsed := false, false
+	// a bus keeps its own default builder until SetCANIDBuilder is called on it
+	ownDefault := map[string]bool{"bus": true, "busB": true}
 	pool := []*acmelib.CANIDBuilder{bus.CANIDBuilder()}
 	for i := 0; i < npool; i++ {
 		pool = append(pool, acmelib.NewCANIDBuilder(fmt.Sprintf("pool_%d", i)))
@@ -488,11 +512,21 @@ func (s *state) runW(mid, nid uint32, npool int, ops []wop) {
 			err = node.RemoveInterface(0)
 			if err == nil {
 				onBus = false
+				riUsed = true
 			}
 		case "Na":
 			err = net.AddBus(bus)
+			if err == nil {
+				inNet = true
+			}
 		case "Nr":
 			err = net.RemoveBus(bus.EntityID())
+			if err == nil {
+				inNet = false
+			}
+		case "SbB":
+			busB.SetCANIDBuilder(pool[o.i])
+			ownDefault["busB"] = false
 		case "Ba2":
 			err = bus.AddNodeInterface(iface2)
 			if err == nil {
@@ -516,6 +550,7 @@ func (s *state) runW(mid, nid uint32, npool int, ops []wop) {
 		case "Sb":
 			bus.SetCANIDBuilder(pool[o.i])
 			curBuilder = o.i
+			ownDefault["bus"] = false
 		case "Ed":
 			_, err = applyEdit(pool[o.i], o.e)
 			if o.i == 0 {
@@ -575,13 +610,14 @@ func (s *state) runW(mid, nid uint32, npool int, ops []wop) {
 			m        *acmelib.Message
 			n        *acmelib.Node
 			att, bus bool
-		}{{"sibling", sib, node, sibAttached, onBus}, {"bystander", msg2, node2, true, onBus2}} {
+			onb      *acmelib.Bus
+		}{{"sibling", sib, node, sibAttached, onBus, bus}, {"bystander", msg2, node2, true, onBus2, bus}, {"second-bus", msg4, node3, true, true, busB}} {
 			ow, ost := uint32(other.m.ID()), "detached"
 			if other.att {
 				ost = "interface-without-bus"
 				if other.bus {
 					ost = "on-bus"
-					ow = uint32(bus.CANIDBuilder().Calculate(other.m.Priority(), other.m.ID(), other.n.ID()))
+					ow = uint32(other.onb.CANIDBuilder().Calculate(other.m.Priority(), other.m.ID(), other.n.ID()))
 				}
 			}
 			if og := uint32(other.m.GetCANID()); og != ow {
@@ -595,11 +631,112 @@ func (s *state) runW(mid, nid uint32, npool int, ops []wop) {
 			s.fail("getcanid-"+st, fmt.Sprintf("after %s (state %s): GetCANID=%#x, documented %#x (id=%#x prio=%#x node=%#x builder=[%s]); case %s", o, st, got, want, uint32(msg.ID()), uint32(msg.Priority()), uint32(node.ID()), opsString(bus.CANIDBuilder()), input))
 		}
 	}
-	line := input + ";" + strings.Join(obs, "/")
+	// ---- save / load leg: every message of the loaded network has the CAN-ID of the original
+	loaded := "skip"
+	reason := ""
+	switch {
+	case riUsed:
+		reason = "node-interface-removed" // the node no longer owns the interface that sits on the bus
+	default:
+		for _, m := range []*acmelib.Message{msg, sib, msg2, msg4} {
+			if m.Priority() > 3 {
+				reason = "priority-not-expressible"
+			}
+		}
+		for _, b := range []*acmelib.Bus{bus, busB} {
+			for _, o := range b.CANIDBuilder().Operations() {
+				if o.Kind() < 0 || o.Kind() > 3 {
+					reason = "unknown-op-kind-not-expressible"
+				}
+			}
+		}
+	}
+	if reason != "" {
+		s.hist["saveload/skipped-"+reason]++
+	} else {
+		if !inNet {
+			if err := net.AddBus(bus); err != nil {
+				panic("harness: " + err.Error())
+			}
+		}
+		loaded = s.saveLoad(net, msg, attached && onBus, ownDefault, input)
+	}
+	line := input + ";" + strings.Join(obs, "/") + ";L=" + loaded
 	if len(s.samples) < 8 && s.hist["W/history"]%400 == 7 {
 		s.samples = append(s.samples, line)
 	}
 	s.emit(line, input, len(statesSeen) >= 2 && computed)
+}
+
+// canIDsOf lists GetCANID of every message reachable in the network, keyed by bus/node/message
+// name, and the operations of each bus's builder.
+func canIDsOf(n *acmelib.Network) (map[string]uint32, map[string]string) {
+	ids, builders := map[string]uint32{}, map[string]string{}
+	for _, b := range n.Buses() {
+		builders[b.Name()] = opsString(b.CANIDBuilder())
+		for _, ni := range b.NodeInterfaces() {
+			for _, m := range ni.SentMessages() {
+				ids[b.Name()+"/"+ni.Node().Name()+"/"+m.Name()] = uint32(m.GetCANID())
+			}
+		}
+	}
+	return ids, builders
+}
+
+// saveLoad saves the network (wire encoding) into a buffer, loads it again and compares GetCANID
+// of every message.  A disagreement is a defect of the saver/loader (property C12) that surfaces
+// in C14's observable: the signatures say so (saveload-c12-...).
+func (s *state) saveLoad(net *acmelib.Network, primary *acmelib.Message, primarySaved bool, ownDefault map[string]bool, input string) string {
+	s.hist["saveload/done"]++
+	var buf bytes.Buffer
+	if err := acmelib.SaveNetwork(net, acmelib.SaveEncodingWire, &buf, nil, nil); err != nil {
+		s.fail("saveload-c12-save-error", fmt.Sprintf("SaveNetwork failed: %v; case %s", err, input))
+		return "save-error"
+	}
+	ln, err := acmelib.LoadNetwork(&buf, acmelib.SaveEncodingWire)
+	if err != nil {
+		s.fail("saveload-c12-load-error", fmt.Sprintf("LoadNetwork of the network just saved failed: %v; case %s", err, input))
+		return "load-error"
+	}
+	primaryKnown := false
+	orig, obuilders := canIDsOf(net)
+	got, lbuilders := canIDsOf(ln)
+	s.hist["saveload/messages-compared"] += len(orig)
+	for k, v := range orig {
+		w, ok := got[k]
+		bus := strings.SplitN(k, "/", 2)[0]
+		switch {
+		case !ok:
+			s.fail("saveload-c12-message-lost", fmt.Sprintf("message %s is missing from the loaded network; case %s", k, input))
+		case w != v && ownDefault[bus] && lbuilders[bus] == "2.0.4,1.4.7,3.0.11":
+			// the bus still has the default builder it was created with, but that builder was edited
+			// through Bus.CANIDBuilder(): the saver writes no builder for such a bus
+			s.fail("saveload-c12-default-builder-edits-not-saved", fmt.Sprintf("message %s: GetCANID %#x before save, %#x after load; the bus's own default builder had been edited to [%s] and is loaded as the pristine default; case %s", k, v, w, obuilders[bus], input))
+			if k == "bus/node/"+primary.Name() {
+				primaryKnown = true
+			}
+		case w != v && obuilders[bus] != lbuilders[bus]:
+			s.fail("saveload-c12-builder-ops", fmt.Sprintf("message %s: GetCANID %#x before save, %#x after load; the builder of its bus was [%s] and is loaded as [%s]; case %s", k, v, w, obuilders[bus], lbuilders[bus], input))
+		case w != v:
+			s.fail("saveload-c12-canid-differs", fmt.Sprintf("message %s: GetCANID %#x before save, %#x after load (same builder operations [%s]); case %s", k, v, w, obuilders[bus], input))
+		}
+	}
+	for k := range got {
+		if _, ok := orig[k]; !ok {
+			s.fail("saveload-c12-message-invented", fmt.Sprintf("loaded network has message %s that the original does not; case %s", k, input))
+		}
+	}
+	if !primarySaved {
+		return "-"
+	}
+	if primaryKnown {
+		// reported above (PROPFAIL); marked so that the model comparison does not count it again
+		return "default-builder-edits-not-saved"
+	}
+	if v, ok := got["bus/node/"+primary.Name()]; ok {
+		return strconv.FormatUint(uint64(v), 10)
+	}
+	return "missing"
 }
 
 // ---------------------------------------------------------------- generators
@@ -876,10 +1013,31 @@ func generate(s *state, r *rng, thorough bool) {
 		lens := make([]int, npool+1)
 		lens[0] = 3
 		n := 4 + r.below(14)
+		// half of the histories start with custom builders made through InsertOperation with
+		// arbitrary legal (from, len) for every kind (a priority operation of length != 2 can only
+		// be made this way) and put one of them on the bus
+		if r.below(2) == 0 {
+			for bi := 1; bi <= npool; bi++ {
+				for k, cnt := 0, 1+r.below(3); k < cnt; k++ {
+					f, l := r.legalShape()
+					kind := r.below(4)
+					if k == 0 && r.below(2) == 0 {
+						kind = 0
+					}
+					ops = append(ops, wop{c: "Ed", i: bi, e: edit{c: 'I', k: kind, from: f, len: l, idx: r.below(lens[bi] + 1)}})
+					lens[bi]++
+				}
+			}
+			ops = append(ops, wop{c: "Sb", i: 1 + r.below(npool)})
+		}
 		for j := 0; j < n; j++ {
 			switch x := r.below(20); {
 			case x < 2:
-				ops = append(ops, wop{c: "P", v: r.val32()})
+				if r.below(3) > 0 {
+					ops = append(ops, wop{c: "P", v: uint32(r.below(4))}) // the four named priorities
+				} else {
+					ops = append(ops, wop{c: "P", v: r.val32()})
+				}
 			case x < 4:
 				ops = append(ops, wop{c: "S", v: r.val32()})
 			case x < 6:
@@ -929,7 +1087,12 @@ func generate(s *state, r *rng, thorough bool) {
 					onBus2 = !onBus2
 				}
 			case x < 16:
-				ops = append(ops, wop{c: "Sb", i: r.below(npool + 1)})
+				// replace the builder of the bus mid-history; the second bus may share it
+				if r.below(3) == 0 {
+					ops = append(ops, wop{c: "SbB", i: r.below(npool + 1)})
+				} else {
+					ops = append(ops, wop{c: "Sb", i: r.below(npool + 1)})
+				}
 			default:
 				bi := r.below(npool + 1)
 				e := r.randomEdit(lens[bi], 10)
@@ -951,6 +1114,15 @@ func generate(s *state, r *rng, thorough bool) {
 					lens[bi] = 0
 				}
 				ops = append(ops, wop{c: "Ed", i: bi, e: e})
+			}
+		}
+		// most histories end attached to the bus, so that the save / load leg has something to say
+		if r.below(10) < 6 {
+			if !attached {
+				ops = append(ops, wop{c: "At"})
+			}
+			if !onBus {
+				ops = append(ops, wop{c: "Ba"})
 			}
 		}
 		s.runW(r.val32(), r.val32(), npool, ops)
@@ -1003,8 +1175,8 @@ func replay(s *state, line string) {
 			switch p[0] {
 			case "P", "S", "D", "N":
 				ops = append(ops, wop{c: p[0], v: uint32(atoi(p[1]))})
-			case "Sb":
-				ops = append(ops, wop{c: "Sb", i: atoi(p[1])})
+			case "Sb", "SbB":
+				ops = append(ops, wop{c: p[0], i: atoi(p[1])})
 			case "Ed":
 				ops = append(ops, wop{c: "Ed", i: atoi(p[1]), e: parseEdit(p[2], ",")})
 			default:
